@@ -122,6 +122,8 @@ type run struct {
 	sawBlockedCall bool // some actor sat inside a /repo call while the controller moved on
 	sawTaskPending bool // a consumer was blocked in a call while a task above it had not finished
 	bubbleDeadlock string
+	// judge's observation (statistics only)
+	handlerProtocolOdd bool
 }
 
 func newRun(p *program, freeRun bool) *run {
@@ -483,6 +485,7 @@ func clip(b []byte, off int) []byte {
 // consumer's position in the program only.
 type expectation struct {
 	accept   map[string]bool // error classes a complete reader may (or must) report
+	any      bool            // some legitimate cause of failure exists whose error the property does not name: every error is acceptable
 	mustFail bool            // a complete read cannot succeed
 	taskOnly bool            // ... and only because a task above fails: all data is delivered first
 }
@@ -490,7 +493,11 @@ type expectation struct {
 func (r *run) expect(n *node) expectation {
 	e := expectation{accept: map[string]bool{}}
 	if !r.model.ok {
-		e.accept[r.model.errClass] = true
+		if r.model.errClass == clsAny {
+			e.any = true
+		} else {
+			e.accept[r.model.errClass] = true
+		}
 		e.mustFail = true
 	}
 	for _, tn := range n.tasksAbove {
@@ -508,10 +515,21 @@ func (r *run) expect(n *node) expectation {
 		// A CloneCopy above with a limit below the object's size may
 		// have turned this branch into a size-limit error (stream
 		// kinds) or ignored the limit (kinds that are already in
-		// memory); both are documented behaviours.
-		e.accept[clsSize] = true
+		// memory); both are documented behaviours. Code and wording of
+		// that rejection are not C15's business.
+		e.any = true
 	}
 	return e
+}
+
+// allows: err class cls is an acceptable failure for this consumer.
+func (e expectation) allows(cls string) bool { return e.any || e.accept[cls] }
+
+func (e expectation) classes() string {
+	if e.any {
+		return "any error"
+	}
+	return e.classes()
 }
 
 func classes(m map[string]bool) string {
@@ -541,8 +559,8 @@ func (r *run) checkConsumer(who string, n *node, s *script, res *result) string 
 			if res.size != size {
 				return fail("GetSizeBytes returned %d, object is %d bytes", res.size, size)
 			}
-		} else if !e.accept[classify(res.sizeErr)] {
-			return fail("GetSizeBytes failed with %v; acceptable error classes here: %s", res.sizeErr, classes(e.accept))
+		} else if !e.allows(classify(res.sizeErr)) {
+			return fail("GetSizeBytes failed with %v; acceptable error classes here: %s", res.sizeErr, e.classes())
 		}
 	}
 	if !res.ran {
@@ -557,25 +575,27 @@ func (r *run) checkConsumer(who string, n *node, s *script, res *result) string 
 		return ""
 	case mByteSlice, mProto:
 		if int64(s.max) < size {
-			// The consumer's own limit is below the declared size.
-			e.accept[clsSize], e.mustFail = true, true
+			// The consumer's own limit is below the declared size: the
+			// call may be refused (with whatever error); C15 does not say
+			// that it must be.
+			e.any = true
 		}
 		var ref *wrapperspb.BytesValue
 		if s.method == mProto && r.model.ok {
 			ref = &wrapperspb.BytesValue{}
 			if proto.Unmarshal(served, ref) != nil {
 				ref = nil
-				e.accept["unmarshal"], e.mustFail = true, true
+				e.any, e.mustFail = true, true // not a message: some error, whichever
 			}
 		}
 		if res.err != nil {
-			if !e.accept[cls] {
-				return fail("failed with %v (class %s); acceptable error classes here: %s", res.err, cls, classes(e.accept))
+			if !e.allows(cls) {
+				return fail("failed with %v (class %s); acceptable error classes here: %s", res.err, cls, e.classes())
 			}
 			return ""
 		}
 		if e.mustFail {
-			return fail("succeeded, but must fail with one of: %s", classes(e.accept))
+			return fail("succeeded, but must fail with one of: %s", e.classes())
 		}
 		if s.method == mByteSlice {
 			if string(res.data) != string(served) {
@@ -589,12 +609,13 @@ func (r *run) checkConsumer(who string, n *node, s *script, res *result) string 
 			return fail("wrote %q, which is not a prefix of the object %q", res.data, served)
 		}
 		writerMustFail := s.n >= 0 && len(served) > s.n
-		if s.n >= 0 {
-			e.accept["writer"] = true
+		if writerMustFail {
+			// the writer's error may be reported as is or wrapped
+			e.any = true
 		}
 		if res.err != nil {
-			if !e.accept[cls] {
-				return fail("failed with %v (class %s); acceptable error classes here: %s", res.err, cls, classes(e.accept))
+			if !e.allows(cls) {
+				return fail("failed with %v (class %s); acceptable error classes here: %s", res.err, cls, e.classes())
 			}
 			if cls == "writer" && !writerMustFail {
 				return fail("reported the writer's error although the writer never failed")
@@ -602,7 +623,7 @@ func (r *run) checkConsumer(who string, n *node, s *script, res *result) string 
 			return ""
 		}
 		if e.mustFail || (writerMustFail && r.model.ok) {
-			return fail("succeeded after writing %q, but must fail with one of: %s", res.data, classes(e.accept))
+			return fail("succeeded after writing %q, but must fail with one of: %s", res.data, e.classes())
 		}
 		if string(res.data) != string(served) {
 			return fail("wrote %q, the object is %q", res.data, served)
@@ -612,23 +633,28 @@ func (r *run) checkConsumer(who string, n *node, s *script, res *result) string 
 		if len(want) > s.n {
 			want = want[:s.n]
 		}
+		if int64(s.off) > size {
+			// beyond the end: "nothing there" (n=0, io.EOF) and a
+			// rejection of the offset are both fine.
+			e.any = true
+		}
 		if res.err != nil && res.err != io.EOF {
-			if !e.accept[cls] {
-				return fail("failed with %v (class %s); acceptable error classes here: %s", res.err, cls, classes(e.accept))
+			if !e.allows(cls) {
+				return fail("failed with %v (class %s); acceptable error classes here: %s", res.err, cls, e.classes())
 			}
 			return ""
 		}
 		if e.mustFail {
 			if !e.taskOnly {
-				return fail("returned n=%d err=%v, but must fail with one of: %s", res.n, res.err, classes(e.accept))
+				return fail("returned n=%d err=%v, but must fail with one of: %s", res.n, res.err, e.classes())
 			}
 			// Only a task above fails: the data is fine, so the task's
 			// error must be reported, also when the read runs into the
 			// end of the object (io.EOF is success to an io.ReaderAt user).
 			if res.err == nil {
-				return fail("returned n=%d without error although a task above failed (must report one of: %s)", res.n, classes(e.accept))
+				return fail("returned n=%d without error although a task above failed (must report one of: %s)", res.n, e.classes())
 			}
-			return fail("returned n=%d with io.EOF although a task above failed: the task's error is lost (must report one of: %s)", res.n, classes(e.accept))
+			return fail("returned n=%d with io.EOF although a task above failed: the task's error is lost (must report one of: %s)", res.n, e.classes())
 		}
 		if res.n != len(want) || string(res.data) != string(want) {
 			return fail("returned n=%d data=%q, the object has %q there", res.n, res.data, want)
@@ -654,12 +680,12 @@ func (r *run) checkConsumer(who string, n *node, s *script, res *result) string 
 		if !res.terminal {
 			return "" // partial reader: a prefix is all that can be said
 		}
-		if res.err != io.EOF && !e.accept[cls] {
-			return fail("read failed with %v (class %s) after %q; acceptable error classes here: %s", res.err, cls, res.data, classes(e.accept))
+		if res.err != io.EOF && !e.allows(cls) {
+			return fail("read failed with %v (class %s) after %q; acceptable error classes here: %s", res.err, cls, res.data, e.classes())
 		}
 		if res.err == io.EOF {
 			if e.mustFail && !e.taskOnly {
-				return fail("stream ended cleanly after %q, but must fail with one of: %s", res.data, classes(e.accept))
+				return fail("stream ended cleanly after %q, but must fail with one of: %s", res.data, e.classes())
 			}
 			if string(res.data) != string(want) {
 				return fail("stream ended cleanly after %q, the object has %q", res.data, want)
@@ -669,10 +695,10 @@ func (r *run) checkConsumer(who string, n *node, s *script, res *result) string 
 				// consumer: ToChunkReader has only Read to say so,
 				// ToReader says so from Close.
 				if s.method == mChunkReader {
-					return fail("stream ended with io.EOF although a task above failed (must report one of: %s)", classes(e.accept))
+					return fail("stream ended with io.EOF although a task above failed (must report one of: %s)", e.classes())
 				}
-				if res.closeErr == nil || !e.accept[classify(res.closeErr)] {
-					return fail("read everything, Close returned %v although a task above failed (must report one of: %s)", res.closeErr, classes(e.accept))
+				if res.closeErr == nil || !e.allows(classify(res.closeErr)) {
+					return fail("read everything, Close returned %v although a task above failed (must report one of: %s)", res.closeErr, e.classes())
 				}
 			}
 		}
@@ -683,8 +709,8 @@ func (r *run) checkConsumer(who string, n *node, s *script, res *result) string 
 				e.accept[fmt.Sprintf("%s%d", clsTask, tn.id)] = true
 			}
 		}
-		if res.closeErr != nil && !e.accept[classify(res.closeErr)] {
-			return fail("Close returned %v; acceptable error classes here: %s", res.closeErr, classes(e.accept))
+		if res.closeErr != nil && !e.allows(classify(res.closeErr)) {
+			return fail("Close returned %v; acceptable error classes here: %s", res.closeErr, e.classes())
 		}
 	}
 	return ""
@@ -800,11 +826,11 @@ func (r *run) judge() string {
 				verdict = r.checkOrdering(who, n, n.script, r.teeRes[n], true)
 			}
 		case opErrHandler:
+			// The handler protocol (Done() exactly once, no OnError()
+			// after it) is property C16's; here it is only counted.
 			h := r.handlers[n]
-			if d := h.done.Load(); d != 1 {
-				verdict = fmt.Sprintf("error handler of WithErrorHandler#%d: Done() called %d times, want exactly once", n.id, d)
-			} else if h.afterDone.Load() > 0 {
-				verdict = fmt.Sprintf("error handler of WithErrorHandler#%d: OnError() called after Done()", n.id)
+			if h.done.Load() != 1 || h.afterDone.Load() > 0 {
+				r.handlerProtocolOdd = true
 			}
 		}
 	})
